@@ -14,7 +14,7 @@ from .c08 import rand_ins
 
 Q = F(1, 4)
 # ops that go through a true float division: compared with tolerance 2^-20
-APPROX_OPS = {"inverse", "toavg", "avgrt", "tomarg", "copyk"}
+APPROX_OPS = {"inverse", "toavg", "avgrt", "tomarg", "copyk", "hist"}
 
 SIG_A = "combine:operand-starts-below-receiver"      # F-C09a
 SIG_B = "avg-roundtrip:first-threshold-positive"     # F-C09b
@@ -123,6 +123,56 @@ def impl(case: Case) -> str:
             if _shares(inv, s, before):
                 flags += " !SHARE"
             return out + flags
+        if op == "hist":
+            bases = parse_vals(f[3])
+            regs = [mk("mr", []) for _ in range(4)]
+            toks = []
+            for st in f[2].split(";"):
+                g = st.split("_")
+                name = g[0]
+                if name == "calc":
+                    toks.append(_calc_raw(regs[int(g[1])], arr(bases)))
+                    continue
+                d = int(g[1])
+                others = [(i, r, snapshot(r)) for i, r in enumerate(regs) if i != d]
+                try:
+                    if name == "new":
+                        regs[d] = mk("mr", parse_scale(g[2]))
+                    elif name == "addb":
+                        regs[d].add_bracket(float(F(g[2])), float(F(g[3])))
+                    elif name == "addts":
+                        regs[d].add_tax_scale(regs[int(g[2])])
+                    elif name == "multi":
+                        regs[d].multiply_thresholds(float(F(g[2])))
+                    elif name == "mulri":
+                        regs[d].multiply_rates(float(F(g[2])), inplace=True)
+                    elif name == "mult":
+                        regs[d] = regs[int(g[2])].multiply_thresholds(float(F(g[3])), inplace=False)
+                    elif name == "mulr":
+                        regs[d] = regs[int(g[2])].multiply_rates(float(F(g[3])), inplace=False)
+                    elif name == "sts":
+                        regs[d] = regs[int(g[2])].scale_tax_scales(float(F(g[3])))
+                    elif name == "inv":
+                        regs[d] = regs[int(g[2])].inverse()
+                    elif name == "avgrt":
+                        regs[d] = regs[int(g[2])].to_average().to_marginal()
+                    elif name == "copy":
+                        regs[d] = regs[int(g[2])].copy()
+                    else:
+                        raise ValueError("unknown step " + st)
+                    toks.append(show_brackets(brackets_of(regs[d])) + "|" + _calc_raw(regs[d], arr(bases)))
+                except ValueError:
+                    raise
+                except Exception:
+                    toks.append("ERR")
+                # no step may touch another object (two registers may hold the same object only
+                # through this adapter, which never does that: every assignment is a fresh result)
+                if any(snapshot(r) != b for i, r, b in others if r is not regs[d]):
+                    flags = " !MUT"
+                if len({id(r) for r in regs}) != len(regs):
+                    flags = " !MUT"
+            toks.append("#" + "&".join(show_brackets(brackets_of(r)) for r in regs))
+            return ";".join(toks) + flags
         if op == "copyk":
             kind, ins, bases = f[2], parse_scale(f[3]), parse_vals(f[4])
             s = mk(kind, ins)
@@ -256,8 +306,76 @@ def _combine_oracle(case, body, start, operands, bases):
     return None
 
 
+def _rate_at(brs, y):
+    r = F(0)
+    for t, q in brs:
+        if t <= y:
+            r = q
+    return r
+
+
+def _hist_oracle(case, body, steps, bases):
+    """every step of a history against the preservation laws, on the *meaning* of each object: a
+    scale means its rate function (rate of the last threshold <= y, 0 below the first); combining
+    adds rate functions, scalings scale them, copy / average round trip keep them.  `None` = the
+    meaning is not tracked any more (after inverse, or outside thresholds >= 0)."""
+    toks = body.split(";")
+    if len(toks) != len(steps) + 1:
+        return ("history:shape", "wrong number of answers for " + case.line[:200])
+    regs = [[], [], [], []]
+    for st, tok in zip(steps, toks):
+        g = st.split("_")
+        name = g[0]
+        if name == "calc":
+            src, d = regs[int(g[1])], None
+            want = src
+        else:
+            d = int(g[1])
+            if name == "new":
+                want = spec_build(parse_scale(g[2]))
+            elif name == "addb":
+                cur = regs[d]
+                want = None if cur is None else sorted({**dict(cur), F(g[2]): dict(cur).get(F(g[2]), F(0)) + F(g[3])}.items())
+            elif name == "addts":
+                a, b = regs[d], regs[int(g[2])]
+                if a is None or b is None or any(t < 0 for t, _ in a + b):
+                    want = None
+                else:
+                    ths = sorted({t for t, _ in a + b})
+                    want = [(t, _rate_at(a, t) + _rate_at(b, t)) for t in ths]
+            elif name in ("multi", "mulri"):
+                cur, k = regs[d], F(g[2])
+                want = None if cur is None or k <= 0 else [((t * k, r) if name == "multi" else (t, r * k)) for t, r in cur]
+            elif name in ("mult", "sts", "mulr"):
+                cur, k = regs[int(g[2])], F(g[3])
+                want = None if cur is None or k <= 0 else [((t, r * k) if name == "mulr" else (t * k, r)) for t, r in cur]
+            elif name == "copy":
+                want = regs[int(g[2])]
+            elif name == "avgrt":
+                cur = regs[int(g[2])]
+                want = cur if cur and cur[0][0] >= 0 else None
+            else:                       # inverse: the law is checked by the `inverse` lines
+                want = None
+        if tok == "ERR":
+            if want is not None and name not in ("inv",):
+                return (f"history:{name}", f"step {st} raised in {case.line[:200]}")
+            if d is not None and name in ("inv", "avgrt"):
+                pass                    # the register keeps its object
+            continue
+        vals = parse_vals(tok.split("|")[1] if "|" in tok else tok)
+        if want is not None:
+            for b, v in zip(bases, vals):
+                w = spec_mr(want, b)
+                if abs(v - w) > TOL:
+                    return (f"history:{name}", f"after step {st} of {case.line.split()[2][:160]} base {b} is taxed {float(v)}, "
+                                               f"the operations so far mean {float(w)}")
+        if d is not None:
+            regs[d] = want
+    return None
+
+
 def oracle(case: Case, out: str):
-    if not case.claimed:
+    if not case.claimed or SILENT in case.tags:
         return None
     f = case.line.split()
     op = f[1]
@@ -332,6 +450,8 @@ def oracle(case: Case, out: str):
                 return (SIG_B if brs[0][0] > 0 else "avg-roundtrip",
                         f"scale {fmt_scale(brs)}: after to_average().to_marginal() base {b} is taxed {float(v)} instead of {float(want)}")
         return None
+    if op == "hist":
+        return _hist_oracle(case, body, f[2].split(";"), parse_vals(f[3]))
     if op == "copyk":
         kind, brs, bases = f[2], spec_build(parse_scale(f[3])), parse_vals(f[4])
         if body == "ERR":
@@ -360,7 +480,7 @@ def nontrivial(case: Case, out: str) -> bool:
     if out.startswith("ERR") or out.startswith("none"):
         return False
     f = case.line.split()
-    if f[1] in ("seq", "cts"):
+    if f[1] in ("seq", "cts", "hist"):
         return True
     src = f[2] if f[1] in ("inverse", "toavg", "avgrt", "tomarg", "copy") else f[-2]
     if src == "@":
@@ -372,8 +492,16 @@ def nontrivial(case: Case, out: str) -> bool:
 # generators
 
 
-def _mk(op, *fields, claimed=True, tags=()):
-    return Case(line=" ".join(["sca", op, *map(str, fields)]), claimed=claimed, tags=(op,) + tuple(tags))
+SILENT = "oracle-silent"
+
+
+def _mk(op, *fields, claimed=True, tags=(), binding=True):
+    """`claimed=False`: outside the statement's claim domain (Appendix A) -- the ORACLE is silent there,
+    but the line stays binding for the correspondence, because the model transcribes the code on
+    that region too (a diff there is a behaviour change nobody has proved harmless).
+    `binding=False` would be for regions that are genuinely unmodelled; no stream needs it."""
+    return Case(line=" ".join(["sca", op, *map(str, fields)]), claimed=binding,
+                tags=(op,) + tuple(tags) + (() if claimed else (SILENT,)))
 
 
 def bases30(rng, scales, scale_by=F(1)):
@@ -511,6 +639,100 @@ def unary_cases(rng):
     return out
 
 
+HIST_K = [F(1, 2), F(3, 2), F(2), F(3), F(1, 4), F(5, 4)]
+
+
+def hist_cases(rng):
+    """a history: 5..12 operations, in place and not, on four scale objects, every operation also
+    repeated with the same arguments after a mutation of its source (a memo would answer stale).
+    Exactness: thresholds >= 0, factors in HIST_K, a register produced by inverse / the average round
+    trip (inexact rates) is afterwards only scaled, copied, converted or evaluated."""
+    steps = []
+    exact = [True] * 4
+    used = [False] * 4
+    nscal = [0] * 4                     # scalings so far: bounds the binary digits
+
+    def new(d):
+        steps.append(f"new_{d}_{fmt_scale(nonneg_scale(rng, nmax=5, start0=rng.choice([True, None])))}")
+        exact[d], used[d], nscal[d] = True, True, 0
+
+    new(0)
+    if rng.random() < 0.7:
+        new(1)
+
+    def pick(cond=lambda i: True):
+        c = [i for i in range(4) if used[i] and cond(i)]
+        return rng.choice(c) if c else None
+
+    def derive():
+        """one out-of-place operation `r_d := op(r_s)`; returns the step text"""
+        opn = rng.choice(["sts", "sts", "mult", "mulr", "copy", "avgrt", "inv"])
+        s_ = pick((lambda i: exact[i]) if opn == "inv" else (lambda i: nscal[i] < 3 or opn in ("copy", "avgrt")))
+        if s_ is None:
+            return None
+        d = rng.randrange(4)
+        txt = f"{opn}_{d}_{s_}" + (f"_{fr(rng.choice(HIST_K))}" if opn in ("sts", "mult", "mulr") else "")
+        return txt, d, s_, opn
+
+    def apply(txt, d, s_, opn):
+        steps.append(txt)
+        used[d] = True
+        exact[d] = exact[s_] and opn not in ("inv", "avgrt")
+        nscal[d] = nscal[s_] + (opn in ("sts", "mult", "mulr"))
+
+    def mutate(i):
+        """one in-place operation on r_i"""
+        opn = rng.choice(["mulri", "multi", "addb", "addts"] if exact[i] else ["mulri", "multi"])
+        if opn in ("mulri", "multi") and nscal[i] >= 3:
+            opn = "addb" if exact[i] else None
+        if opn is None:
+            return
+        if opn == "addb":
+            steps.append(f"addb_{i}_{rng.choice([0, 5, 50, 100, rng.randint(0, 1200)])}_{fr(F(rng.randint(0, 16), 16))}")
+        elif opn == "addts":
+            o = pick(lambda j: exact[j])
+            steps.append(f"addts_{i}_{o}")
+        else:
+            steps.append(f"{opn}_{i}_{fr(rng.choice(HIST_K))}")
+            nscal[i] += 1
+
+    for _ in range(rng.randint(2, 6)):
+        r = rng.random()
+        if r < 0.45:
+            x = derive()
+            if x:
+                apply(*x)
+        elif r < 0.85:
+            i = pick()
+            mutate(i)
+        elif r < 0.93:
+            steps.append(f"calc_{pick()}")
+        else:
+            new(rng.randrange(4))
+    # the same operation with the same arguments, before and after a mutation of its source
+    for _ in range(rng.randint(1, 2)):
+        x = derive()
+        if not x:
+            continue
+        txt, d, s_, opn = x
+        if d == s_:
+            d = (s_ + 1) % 4
+            txt = txt.replace(f"{opn}_{s_}_{s_}", f"{opn}_{d}_{s_}", 1)
+        apply(txt, d, s_, opn)
+        mutate(s_)
+        if rng.random() < 0.3:
+            mutate(s_)
+        d2 = rng.choice([i for i in range(4) if i != s_])
+        parts = txt.split("_")
+        parts[1] = str(d2)
+        apply("_".join(parts), d2, s_, opn)
+        if rng.random() < 0.4:
+            c = rng.choice([i for i in range(4) if i != d2])
+            apply(f"copy_{c}_{d2}", c, d2, "copy")
+    bases = sorted({F(rng.randint(0, 5000), 4) for _ in range(9)} | {F(0), F(-3), F(50), F(100)})
+    return [_mk("hist", ";".join(steps), fmt_vals(bases), tags=(f"len{min(len(steps), 12)}",))]
+
+
 def unclaimed_cases(rng):
     """negative thresholds, hand-built average scales: answered (the model mirrors the code), not binding"""
     out = []
@@ -548,6 +770,7 @@ def generate(rng: random.Random, tier: str):
             out += cts_cases(rng)
         if rng.random() < 0.25:
             out += unclaimed_cases(rng)
+        out += hist_cases(rng)
     return out
 
 
@@ -596,6 +819,8 @@ def corpus():
         _mk("avgrt", "7:1/8", b, tags=("F-C09c",)),
         _mk("inverse", "0:1/4,100:1/2", b),
         _mk("mult", "3/2", "-", "0:1/4,10:1/2", "0,4,20"),
+        _mk("hist", "new_0_0:1/4,100:1/2;sts_1_0_3/2;mulri_0_2;sts_2_0_3/2;copy_3_2;addts_3_1;calc_3;inv_1_0;avgrt_2_3;addb_0_50_1/8", "0,60,200",
+            tags=("same-op-after-mutation",)),
     ]
 
 
@@ -637,6 +862,10 @@ PROP = Prop(
     assumptions=[
         "IEEE rounding is modelled, not verified (dyadic lattice inputs; un-rounded calc values are snapped to the 2^-12 lattice after "
         "checking they lie within 2^-20 of it; inverse / to_average / to_marginal contain float divisions and are compared with tolerance 2^-20)",
+        "outside the claim domain the ORACLE is silent but every line stays binding for the correspondence (the model transcribes the code "
+        "there too: negative / zero factors, negative thresholds, inverse of other scales, hand-built average scales, empty scales)",
+        "histories (`hist`): random sequences of in-place and out-of-place operations on four objects, each step recomputed by the pure model "
+        "from the brackets alone (any memo or shared list shows as a diff), the same operation repeated with the same arguments after a mutation",
         "non-mutation of the operands is carried by the correspondence only: deep snapshot of thresholds and rates of every operand before/after "
         "each operation (a pure model cannot express it)",
         "claim domain (Appendix A): scales with thresholds >= 0; inverse for first threshold 0 and rates < 1; positive factors; the rest is answered "
